@@ -144,6 +144,16 @@ Init(c0) ==
     /\ sst = <<>> /\ emitted = <<>> /\ wire = <<>> /\ chn = <<>> /\ gcl = <<>> /\ fin = <<>>
     /\ mrg = <<>> /\ out = <<>>
 
+\* a fresh client on a fresh cluster (next-state form; trace validation concatenates many runs)
+Reinit(c0) ==
+    /\ cfg' = c0
+    /\ calls' = <<>> /\ ans' = <<>> /\ agg' = <<>> /\ done' = <<>> /\ res' = <<>>
+    /\ q'   = [s \in 1..c0.n |-> [w |-> <<>>, r |-> <<>>]]
+    /\ cur' = [s \in 1..c0.n |-> [w |-> <<>>, r |-> <<>>]]
+    /\ fly' = [s \in 1..c0.n |-> [w |-> <<>>, r |-> <<>>]]
+    /\ sst' = <<>> /\ emitted' = <<>> /\ wire' = <<>> /\ chn' = <<>> /\ gcl' = <<>> /\ fin' = <<>>
+    /\ mrg' = <<>> /\ out' = <<>>
+
 (***************************************************************************)
 (* The application issues a call (Put / Delete / DeleteRange / Get / List  *)
 (* / RangeScan).  Batched calls are handed to the batcher of every target  *)
